@@ -1,4 +1,5 @@
 mod c03;
+mod dictb;
 mod enc;
 mod fd;
 mod fmt;
@@ -117,6 +118,7 @@ fn main() {
         "c16classes" => um::c16classes(rest),
         "c16tiny" => um::c16tiny(rest),
         "zstdcat" => util::zstdcat(rest),
+        "c20exec" => dictb::c20exec(rest),
         "c14rows" => fmt::c14rows(rest),
         "c12dec" => fsex::c12dec(rest),
         "c12enc" => fsex::c12enc(rest),
